@@ -23,7 +23,7 @@ CHECKS = {
     "C03": dict(
         category="model_checking",
         technique="exhaustive walk of a finite configuration lattice (h, r, declaration order) on the real evaluator and the public fuzz API",
-        text="Every configuration 0..12 x 0..12 (thorough 0..40 x 0..40) of h hard constraints and r computed repetitions in 3 declaration orders, with repetition counts 2 and 0 (zero iterations; h, r <= 6), is built as a real spec; an independently confirmed satisfying tree must be yielded by the real Evaluator.evaluate_individual on first sight, and for small h + r Fandango.fuzz(initial_population=[witness]) must report a solution.",
+        text="Every configuration 0..12 x 0..12 (thorough 0..40 x 0..40) of h hard constraints and r computed repetitions in 3 declaration orders, with repetition counts 2 and 0 (zero iterations; h, r <= 6), plus one comparison constraint matching m = 1..32 (thorough 80) places of the witness next to 0/1/3 further constraints, plus the (h, r) question asked again of one spec object after an earlier search with extra constraints, is built as a real spec; an independently confirmed satisfying tree must be yielded by the real Evaluator.evaluate_individual on first sight, and for small h + r Fandango.fuzz(initial_population=[witness]) must report a solution.",
         note="The lattice is finite and walked completely; constraints are tautologies / fixed-count repetitions so the witness is known to satisfy them. Rounding defect repaired in /repo (fix commit, see known_findings.json).",
         design="4 C03",
     ),
@@ -37,7 +37,7 @@ CHECKS = {
     "C08": dict(
         category="translation_validation",
         technique="bounded-exhaustive enumeration of Python programs over a construct grammar (small scope), each translated by the real front end and compared with CPython's own AST",
-        text="~4800 (thorough ~20000) programs: every expression constructor (operators, comparisons, boolean, conditional, lambdas with every parameter kind, calls with every argument kind, subscripts/slices, displays, comprehensions, f-strings, literals) with every depth-1 expression in every operand slot, statement constructors nested to block depth 2 (assignments, control flow, try/with, def with every parameter kind, decorators, async, class, imports, match/type/walrus), and the expressions again inside constraints, generators and repetition bounds with a symbol reference. ast.dump of CPython's parse of the text Fandango will execute must equal ast.dump of CPython's parse of the source (constant-only f-strings folded, symbol identifiers renamed) unless Fandango rejects the program.",
+        text="~4800 (thorough ~20000) programs: every expression constructor (operators, comparisons, boolean, conditional, lambdas with every parameter kind, calls with every argument kind, subscripts/slices, displays, comprehensions, f-strings, literals) with every depth-1 expression in every operand slot, statement constructors nested to block depth 2 (assignments, control flow, try/with, def with every parameter kind, decorators, async, class, imports, match/type/walrus), and the expressions again inside constraints, generators and repetition bounds with a symbol reference. ast.dump of CPython's parse of the text Fandango will execute must equal ast.dump of CPython's parse of the source (constant-only f-strings folded, symbol identifiers renamed) unless Fandango rejects the program. In addition 21 programs whose observable result depends on how code is compiled and run (annotations, evaluation order, scoping, assert, __name__) are executed by Fandango and by CPython and their results compared.",
         note="Small-scope translation validation, not a proof for all programs. A rejection is never a violation; acceptance rate and rejected constructs are reported. Four defect classes are recorded known findings (identified by the culprit construct), two were repaired.",
         design="4 C08",
     ),
@@ -94,20 +94,20 @@ CHECKS = {
         category="model_checking",
         technique="bounded-exhaustive enumeration of (grammar, input, request kind) with a state-admission budget as bounded-liveness oracle",
         text="Every (grammar, word) of the family is parsed as whole forest and in prefix mode under a Column.add admission budget of 30 000, growing six-fold per input symbol beyond length 4 (quick-tier requests need < 5 000; the measured maximum is in the evidence). A request exceeding the budget or 30 s is reported as non-terminating. Twelve templates of computed repetitions ({int(<n>)}) in recursive, nested, starred and nullable contexts x every word up to length 5 (thorough 7) go through the same requests.",
-        note="Bounded liveness: a budget overrun is taken as divergence (margin reported). The nullable-body-under-*/+ divergence was repaired in /repo.",
+        note="Bounded liveness: a budget overrun is taken as divergence (margin reported). The nullable-body-under-*/+ divergence was repaired in /repo; divergence on grammars with a derivation cycle (a symbol derives itself without consuming input) is a recorded known finding.",
         design="4 C06",
     ),
     "C14": dict(
         category="model_checking",
         technique="bounded-exhaustive enumeration of spec texts (all line sequences up to a length bound over a lexer-oriented line alphabet, plus shipped specs), differential comparison of the two front ends on every text",
-        text="The C++ front end is rebuilt from /repo's current cpp_parser sources (cached by source hash). Every text of <= 2 lines over a 20-line alphabet and <= 3 lines over a core alphabet (thorough: 3 lines over all, 4 over a core), with and without final newline, and with LF / CRLF / bare-CR line endings - rule lines, rules continued over open brackets, where lines, def headers, bodies at indent 1/2 with spaces or tabs, blank and comment lines, f-strings, generators, unbalanced brackets, dedents to unseen levels - plus the shipped .fan files go through both front ends in one process; parse trees (rule names, token types and texts) and extracted Python code must be identical, or both must reject with the same error class.",
-        note="Trusted: the comparison harness; INDENT/DEDENT token text is ignored (lexer-base artefact nothing downstream reads). Built with cmake/g++ -O2 rather than the project's LTO flags.",
+        text="The C++ front end is rebuilt from /repo's current cpp_parser sources (cached by source hash). Every text of <= 2 lines over a 20-line alphabet and <= 3 lines over a core alphabet (thorough: 3 lines over all, 4 over a core), with and without final newline, and with LF / CRLF / bare-CR line endings - rule lines, rules continued over open brackets, where lines, def headers, bodies at indent 1/2 with spaces or tabs, blank and comment lines, f-strings (also with brackets in their literal text), generators, unbalanced brackets, dedents to unseen levels, NUL characters, a byte-order mark - plus the shipped .fan files go through both front ends in one process; parse trees (rule names, token types and texts) and extracted Python code must be identical, or both must reject with the same error class.",
+        note="Two genuine disagreements (leading byte-order mark, NUL inside a token) were repaired in /repo. Trusted: the comparison harness; INDENT/DEDENT token text is ignored (lexer-base artefact nothing downstream reads). Built with cmake/g++ -O2 rather than the project's LTO flags.",
         design="4 C14",
     ),
     "C15": dict(
         category="model_checking",
         technique="bounded-exhaustive enumeration of specs (grammars over printer-oriented atoms, C07 constraint family); read - print - re-read round trip compared structurally / by verdicts on all enumerated trees",
-        text="~2250 grammars (operator depth <= 2 over literals with both quote kinds, backslashes, non-ASCII, non-printables, bytes, str/bytes regexes with quotes, bits, groups under every postfix operator, every bound form, generators, computed repetitions; operator-depth-3 grouping frames: postfix operator over a concatenation/alternative whose first/middle/last elements are groups; the same text as literal and regex, str and bytes, in one spec) and ~900 (thorough ~1800) constraint programs: the generated text is read, printed with repr(grammar) / format_as_spec(), and the printed text is read again. The re-read grammar must denote the same language (both converted node by node into RefGrammar, structural comparison confirmed by a distinguishing word), generators must survive, and the re-read constraint must give the same verdict on every enumerated tree.",
+        text="~2450 grammars (operator depth <= 2 over literals with both quote kinds, backslashes, non-ASCII, non-printables, bytes, str/bytes regexes with quotes, bits, groups under every postfix operator, every bound form, generators, computed repetitions; operator-depth-3 grouping frames: postfix operator over a concatenation/alternative whose first/middle/last elements are groups; the same text as literal and regex, str and bytes, in one spec; whole rule bodies that begin and end with a group) and ~900 (thorough ~1800) constraint programs: the generated text is read, printed with repr(grammar) / format_as_spec(), and the printed text is read again. The re-read grammar must denote the same language (both converted node by node into RefGrammar, structural comparison confirmed by a distinguishing word), generators must survive, and the re-read constraint must give the same verdict on every enumerated tree.",
         note="Two printer defects were repaired; three are recorded known findings.",
         design="4 C15",
     ),
@@ -121,14 +121,14 @@ CHECKS = {
     "C17": dict(
         category="model_checking",
         technique="exhaustive enumeration of environment-seam combinations (heap layout x clock offset x import order) per configuration, each in a fresh process, outputs compared byte for byte",
-        text="45 (thorough 150) configurations (15 specs spanning grammar-only, constraints, computed repetitions, equality repair, generators, regexes, bits, soft constraints, ambiguity, wide ambiguity, ambiguous generator output, explicit conjunctions x seeds x population sizes, plus one 20-generation run per spec) are each run in 8 fresh processes, one per combination of two heap layouts (garbage allocated before importing fandango shifts every id()), two clock offsets and two import orders, with the same PYTHONHASHSEED; the ordered solution sequence, the returned list, the parse forest and the first tree must be identical across all children.",
+        text="48 (thorough 160) configurations (16 specs spanning grammar-only, constraints, computed repetitions, equality repair, generators, regexes, bits, soft constraints, ambiguity, wide ambiguity, ambiguous generator output, explicit conjunctions, conditional-expression constraints x seeds x population sizes, plus one 20-generation run per spec) are each run in 8 fresh processes, one per combination of two heap layouts (garbage allocated before importing fandango shifts every id()), two clock offsets and two import orders, with the same PYTHONHASHSEED; the ordered solution sequence, the returned list, the parse forest and the first tree must be identical across all children.",
         note="Decides independence from these three sources for these configurations only; os.urandom/uuid4 are not intercepted.",
         design="4 C17",
     ),
     "C18": dict(
         category="model_checking",
         technique="explicit-state enumeration of activity histories on other spec objects, each history in its own fresh process, differential oracle against the instance used alone",
-        text="All histories up to length 2 (thorough 3) over {fuzz / fuzz that finds its solutions at once / long stagnating fuzz / soft-goal evaluation / parse on spec A, construct / fuzz a third spec, unrelated parse and differently seeded fuzz on B} for 2 x 3 spec pairs chosen so that A touches what B reads (stagnation raises the repetition cap; B has *, +, {n,}; shared start symbols and words); every history runs in a process forked from a parent that only imported fandango. B's seeded solution sequence and parse forest must equal those of B used alone; a fingerprint of fandango's module-level mutable state is recorded per state.",
+        text="All histories up to length 2 (thorough 3) over {fuzz / fuzz that finds its solutions at once / long stagnating fuzz / soft-goal evaluation / parse on spec A, construct / fuzz a third spec, unrelated parse and differently seeded fuzz on B} for spec pairs chosen so that A touches what B reads (stagnation raises the repetition cap, also in protocol mode; B has *, +, {n,}; shared start symbols and words; optimisation goals on both; the same text as plain literal in one spec and as regex in the other), with B constructed before or after the activity on the other objects; every history runs in a process forked from a parent that only imported fandango. B's seeded solution sequence and parse forest must equal those of B used alone; a fingerprint of fandango's module-level mutable state is recorded per state.",
         note="The repetition-cap leak was repaired in /repo.",
         design="4 C18",
     ),
